@@ -191,7 +191,7 @@ fn c18all(seed: u64) -> i32 {
 fn c18big(seed: u64) -> i32 {
     use crate::ds::Flat;
     let mut rng = stream(run_seed(seed, "C18-miri-big", 0), "workload");
-    let n = 20000 + rng.usize_below(6000);
+    let n = 13000 + rng.usize_below(3000);
     let dens = 20 + rng.below(30);
     let bits: String = (0..n).map(|_| if rng.below(64) < dens { '1' } else { '0' }).collect();
     let ones = bits.chars().filter(|&c| c == '1').count();
@@ -304,6 +304,7 @@ fn main() {
     crate::core::install_quiet_panic_hook();
     let seed: u64 = args[1].parse().expect("seed");
     let code = match args[0].as_str() {
+        "warm" => 0,
         "c18" => c18(seed),
         "c18all" => c18all(seed),
         "c18big" => c18big(seed),
